@@ -134,6 +134,28 @@ Theorem cnf_truthful : forall h, h = cc_grant \/ h = code_grant \/ h = ciba_gran
 Proof. intros h Hh w n now r st st' t. exact (cnf_truthful_lemma h w n now r st st' t Hh). Qed.
 Print Assumptions cnf_truthful.
 
+(* (4b) Refresh keeps the binding.  For every store, configuration and request of the refresh_token
+   grant (public or confidential client): on a grant found under the presented refresh token, the
+   refreshed token is bound to a key iff the grant was (given that a key-bound grant exists only
+   where DPoP is enabled), bound to a certificate iff the grant was; a new jkt is the thumbprint of
+   the key that is embedded in, and signed, this request's accepted proof, a new x5t that of the
+   certificate this request presented; and the response's cnf is that of the grant session written. *)
+Theorem refresh_keeps_binding : forall w n now r st st' t,
+  (forall p k, b_dpop (t_bind r) = Some p -> dp_jwk p = JwkPublic k -> k <> 0) ->
+  run_seq (refresh_grant w n now r) st = (st', OTokens t) ->
+  exists g, find (fun g => ideq (g_refresh g) (t_refresh r)) (st_gsess st) = Some g /\
+    ((g_jkt g <> 0 -> cf_dpop_enabled (w_cfg w) = true) ->
+       (g_jkt g <> 0 <-> tr_jkt t <> 0) /\
+       (tr_jkt t <> 0 -> tr_jkt t = g_jkt g \/
+          exists p k, b_dpop (t_bind r) = Some p /\ dp_jwk p = JwkPublic k /\ dp_signer p = k /\
+                      validate_jwt jwt_lifetime jwt_leeway p 0 0 = None /\ tr_jkt t = k)) /\
+    (g_x5t g <> 0 <-> tr_x5t t <> 0) /\
+    (tr_x5t t <> 0 -> tr_x5t t = g_x5t g \/ tr_x5t t = b_cert (t_bind r)) /\
+    tr_dpop t = negb (is_nil (tr_jkt t)) /\
+    exists g', In g' (st_gsess st') /\ g_id g' = g_id g /\ g_jkt g' = tr_jkt t /\ g_x5t g' = tr_x5t t.
+Proof. exact refresh_cnf_lemma. Qed.
+Print Assumptions refresh_keeps_binding.
+
 (* (5) Where binding is required, no unbound token.  For every configuration the option API builds,
    each issuing grant, every store and request whose proof (if any) embeds a key with a non-empty
    thumbprint: if DPoP is required by the server, or enabled and required by the authenticated
